@@ -56,6 +56,10 @@ CHECKS = {
             "reference-arithmetic monitor + cross-core comparison on every tick of the real TimerScheduler.advance and TimerContext::tick_timers; icontract postcondition on advance()",
             "Held on all period pairs 0..12 x 0..12 x enabled, sampled large periods, every-cycle and gap sequences with resets and snapshot/restore points: fire pattern, next targets strictly in the future, ISR bits, exactly-once on every-cycle sequences, Python == Rust.",
             "Unit level (scheduler objects); the instruction-boundary re-phasing of CoreRuntime is covered at machine level by C12/C16.", "DESIGN.md 3/C13"),
+    "C14": ("exploration",
+            "online clause monitor driven by the ground truth of issued operations (KIL soundness/completeness, per-key event automaton with cadence and bounded release, FIFO only-oldest-dropped, KEYI edge) on the real Python KeyboardMatrix/handler and Rust KeyboardMatrix; icontract invariant on _enqueue_event",
+            "Held (modulo listed findings) on seeded adversarial histories under both polarities and 81 threshold settings, and on all histories up to length 4/5 over a 3-key/2-strobe alphabet.",
+            "Each model is judged at its own documented consumption points; Python KEYI is monitored at machine level in C12.", "DESIGN.md 3/C14"),
     "C15": ("exploration",
             "reference HD61202-pair monitor after every window access on the real Python HD61202Controller and Rust LcdController, cross-model comparison, complete VRAM-bit -> pixel ownership enumeration, per-write display diff",
             "Held (modulo listed findings) on seeded histories over all 16 low-nibble decodings and mirrors, on all sequences of <= 2/3 operations over a 24-op alphabet, and on the complete 8192-bit flip map of both models (Rust under 5 start lines): state, read values, one-owner-per-pixel, one column per data write.",
